@@ -203,8 +203,11 @@ def run_walk(case, bct, REC):
             off = ~np.eye(n, dtype=bool)
             with np.errstate(all='ignore'):
                 exp = np.where(off, 1.0 / np.real(M), 0.0)
-            REC.check(PROP, 'diffusion_efficiency', 'inverse_of_mfpt', close(np.real(ed), exp, rtol=1e-9, atol=1e-12), dict(det, got=ed), cls)
-            REC.check(PROP, 'diffusion_efficiency', 'global_mean', close(np.real(ge), exp[off].mean(), rtol=1e-9), dict(det, got=ge), cls)
+            # two separate eigen-solves: with weights over 12 orders of magnitude (condition number of the transition
+            # matrix ~1e6) they agree to ~1e-9 only, and not always (sweep seed 3: 3e-10 vs 1.2e-9)
+            rt = 1e-6 if case.get('w') == 'logu' else 1e-9
+            REC.check(PROP, 'diffusion_efficiency', 'inverse_of_mfpt', close(np.real(ed), exp, rtol=rt, atol=1e-12), dict(det, got=ed), cls)
+            REC.check(PROP, 'diffusion_efficiency', 'global_mean', close(np.real(ge), np.real(ed)[off].mean(), rtol=1e-12) and close(np.real(ge), exp[off].mean(), rtol=rt), dict(det, got=ge), cls)
     # PageRank (no dangling columns on these graphs)
     deg = W.sum(axis=0)
     if np.all(deg > 0):
